@@ -82,6 +82,15 @@ pub enum Expr {
   MapGet(String, SV),
   /// call of a user function of the session prelude; arguments are literals or variables
   Call(String, Vec<Expr>),
+  /// a container written with variables among its elements: kind is "tuple" `(x, 2)`, "record"
+  /// `{a: x, b: 2}`, "map" `{"a": x, "b": 2}` or "mat" `[a]` / `[a b]`
+  Built(String, Vec<BuiltElem>),
+}
+
+#[derive(Clone, Debug, PartialEq, Eq, Hash, Serialize, Deserialize)]
+pub enum BuiltElem { Var(String), Lit(SV) }
+impl BuiltElem {
+  pub fn render(&self) -> String { match self { BuiltElem::Var(n) => n.clone(), BuiltElem::Lit(v) => render_lit(v) } }
 }
 
 #[derive(Clone, Debug, PartialEq, Eq, Hash, Serialize, Deserialize)]
@@ -161,12 +170,24 @@ impl Expr {
       Expr::LitOp(a, op, b) => format!("{} {} {}", render_lit(a), op.sym(), render_lit(b)),
       Expr::MapGet(n, k) => format!("{}{{{}}}", n, render_lit(k)),
       Expr::Call(f, args) => format!("{}({})", f, args.iter().map(|a| a.render()).collect::<Vec<_>>().join(", ")),
+      Expr::Built(kind, els) => {
+        let names = ["a", "b", "c", "d"];
+        match kind.as_str() {
+          "tuple" => format!("({})", els.iter().map(|e| e.render()).collect::<Vec<_>>().join(", ")),
+          "record" => format!("{{{}}}", els.iter().enumerate().map(|(i, e)| format!("{}: {}", names[i % 4], e.render())).collect::<Vec<_>>().join(", ")),
+          "map" => format!("{{{}}}", els.iter().enumerate().map(|(i, e)| format!("\"{}\": {}", names[i % 4], e.render())).collect::<Vec<_>>().join(", ")),
+          // two f64 columns, elements row by row (an odd last element is dropped by the generator)
+          "table" => format!("|a<f64> b<f64>| {} |", els.chunks(2).map(|r| r.iter().map(|e| e.render()).collect::<Vec<_>>().join(" ")).collect::<Vec<_>>().join(" | ")),
+          _ => format!("[{}]", els.iter().map(|e| e.render()).collect::<Vec<_>>().join(" ")),
+        }
+      }
     }
   }
   pub fn form(&self) -> &'static str {
     match self {
       Expr::Lit(_) => "lit", Expr::Var(_) => "var", Expr::VarOp(..) => "var-op-lit", Expr::VarVar(..) => "var-op-var",
       Expr::VarIdx(..) => "var-idx", Expr::Field(..) => "field", Expr::TupElem(..) => "tuple-elem", Expr::LitOp(..) => "lit-op-lit", Expr::MapGet(..) => "map-get", Expr::Call(..) => "call",
+      Expr::Built(k, _) => match k.as_str() { "tuple" => "built-tuple", "record" => "built-record", "map" => "built-map", "table" => "built-table", _ => "built-mat" },
     }
   }
   pub fn vars(&self) -> Vec<&str> {
@@ -175,6 +196,7 @@ impl Expr {
       Expr::Var(n) | Expr::VarOp(n, ..) | Expr::Field(n, _) | Expr::TupElem(n, _) | Expr::MapGet(n, _) => vec![n],
       Expr::VarVar(a, _, b) => vec![a, b],
       Expr::Call(_, args) => args.iter().flat_map(|a| a.vars()).collect(),
+      Expr::Built(_, els) => els.iter().filter_map(|e| if let BuiltElem::Var(n) = e { Some(n.as_str()) } else { None }).collect(),
       Expr::VarIdx(n, s) => {
         let mut v = vec![n.as_str()];
         match s {
